@@ -197,9 +197,11 @@ class ProbeResult:
         return self.steps[i] if self.steps is not None and i < len(self.steps) else None
 
 
-def run_probe(lines, variant="asan", env=None, cpu=CPU_LIMIT_S):
-    """lines: list of script lines (str). Returns ProbeResult."""
+def run_probe(lines, variant="asan", env=None, cpu=CPU_LIMIT_S, heap=False):
+    """lines: list of script lines (str). Returns ProbeResult.  heap=True: the malloc-accounting probe (plain variant)."""
     b = build.ensure(variant)
+    if heap:
+        b = dict(b, probe=b["probe_heap"])
     wd = workdir()
     sp = wd.write("\n".join(lines) + "\n", ".script")
     rp = wd.path(".json")
